@@ -1044,6 +1044,12 @@ impl<'a> Sim<'a> {
         }
         if v <= 2 {
             m.insert("event_id".into(), J::Str(format!("$cv{}:{name}", self.t.below(100_000))));
+        } else if self.t.chance(1, 3) {
+            // a v3+ event that still carries an `event_id` field (a stored or legacy shape): the
+            // field survives redaction, so it is hashed like any other kept key
+            let id = if self.t.chance(1, 2) { format!("$cv{}:{name}", self.t.below(100_000)) } else { format!("${}", "A".repeat(43)) };
+            m.insert("event_id".into(), J::Str(id));
+            self.bump("crypto.v3plus-event-with-event_id");
         }
         let before = J::Obj(m);
         let key = revent::SignKey::from_seed(self.servers[n].seed, &self.servers[n].key_version);
@@ -1372,11 +1378,19 @@ impl<'a> Sim<'a> {
         let mut keys = self.keys.clone();
         keys.entry("id.example".into()).or_default().insert(self.idserver.key_id(), self.idserver.public().to_vec());
         // rotated keys: the same entity signs again under a second key id
+        // (one time in four the second key id is an alias: the same key bytes published under
+        // another version, so that two signatures of one entity verify under one key)
+        let alias = self.t.chance(1, 4);
+        if alias {
+            self.bump("sign.alias-key-ids");
+        }
         let rotated: Vec<(String, SignKey)> = signers
             .iter()
             .map(|(n, k)| {
                 let mut seed = k.sk.to_bytes();
-                seed[31] ^= 0x5a;
+                if !alias {
+                    seed[31] ^= 0x5a;
+                }
                 (n.clone(), SignKey::from_seed(seed, &format!("{}r", k.version)))
             })
             .collect();
@@ -1462,7 +1476,8 @@ impl<'a> Sim<'a> {
                 if !ents.is_empty() {
                     let ent = self.t.pick(&ents).clone();
                     let mut set = sigs[&ent].as_obj().cloned().unwrap_or_default();
-                    if let Some((kid, J::Str(s))) = set.iter().next().map(|(a, b)| (a.clone(), b.clone())) {
+                    let nth = self.t.index(set.len().max(1));
+                    if let Some((kid, J::Str(s))) = set.iter().nth(nth).map(|(a, b)| (a.clone(), b.clone())) {
                         if let Some(mut raw) = refmodel::rb64::decode_std_strict(&s) {
                             let i = self.t.index(raw.len().max(1));
                             raw[i] ^= 1 << self.t.below(8);
